@@ -117,6 +117,18 @@ def run(ctx):
     for m in re.finditer(r"let\s+(\w+)\s*=\s*target_params\s*\.get\(\s*(§\d+§)\s*\)", body):
         rkeys[m.group(1)] = rf.lit(m.group(2))
     where = f"{RS}:bzr_url_to_git_url"
+    # values: what the writer percent-encodes the reader must decode
+    enc = set()
+    for n in walk_own(fw):
+        if isinstance(n, ast.Assign) and isinstance(n.targets[0], ast.Subscript) and norm(n.targets[0].value) == "params" and isinstance(n.targets[0].slice, ast.Constant):
+            if any(isinstance(c, ast.Call) and (call_attr(c) or "") in ("quote_from_bytes", "escape", "quote") for c in ast.walk(n.value)):
+                enc.add(n.targets[0].slice.value)
+    dec = set()
+    for m in re.finditer(r"let\s+(\w+)\s*=\s*target_params\s*\.get\(\s*(§\d+§)\s*\)([^;]*);", body):
+        if re.search(r"\b(unescape|unquote|percent_decode\w*)\s*\(", m.group(3)):
+            dec.add(rf.lit(m.group(2)))
+    for k in sorted(enc | dec):
+        ctx.check("url-value-encoding", where, (k in enc) == (k in dec), f"parameter {k!r}: percent-encoded by the writer and decoded by the reader", construct=f"encoded {sorted(enc)} decoded {sorted(dec)}", message=f"URL parameter {k!r} is " + ("percent-encoded by git_url_to_bzr_url but not decoded by bzr_url_to_git_url: a branch or ref containing '/' (or any escaped character) comes back as 'a%2Fb'" if k in enc else "decoded by the reader although the writer stores it raw"))
     ctx.check("url-keys", where, bool(wkeys) and set(rkeys.values()) == wkeys, f"keys written by git_url_to_bzr_url {sorted(wkeys)} == keys read by bzr_url_to_git_url {sorted(rkeys.values())}", construct=f"reader {rkeys}", message=f"URL segment-parameter keys disagree: Python writes {sorted(wkeys)}, Rust reads {sorted(rkeys.values())} — a URL written with a key the reader does not know loses that component")
     order = []
     k = body.find("Ok((")
@@ -144,10 +156,47 @@ def run(ctx):
     fsp = repo.func("breezy/git/branch.py", "GitBranch.set_parent")
     unp = [norm(n.targets[0]) for n in walk_own(fsp) if isinstance(n, ast.Assign) and isinstance(n.value, ast.Call) and call_attr(n.value) == "bzr_url_to_git_url"]
     ctx.check("url-result-order", "breezy/git/branch.py:GitBranch.set_parent", unp == ["(target_url, branch, ref)"], f"set_parent unpacks {unp}")
+    # ---- R4: the parent location is written to and read from the same git config entries -----------------------
+    GB = "breezy/git/branch.py"
+
+    def cfg_accesses(fn, meth):
+        """{(normalised section, key)} of cs.<meth>(section, key, ...) calls; locals bound from the remote-name helpers
+        and `self.name.encode(...)` are replaced by role markers so that writer and reader can be compared."""
+        roles = {}
+        for s_ in walk_own(fn):
+            if isinstance(s_, ast.Assign) and isinstance(s_.value, ast.Call) and call_attr(s_.value) in ("_get_origin", "_get_push_origin") and isinstance(s_.targets[0], ast.Name):
+                roles[s_.targets[0].id] = f"<remote:{call_attr(s_.value)}>"
+        out = set()
+        for c in calls_in(fn):
+            if call_attr(c) == meth and len(c.args) >= 2 and isinstance(c.args[0], ast.Tuple) and isinstance(c.args[1], ast.Constant):
+                sec = []
+                for e in c.args[0].elts:
+                    t = norm(e)
+                    if isinstance(e, ast.Constant):
+                        sec.append(e.value.decode() if isinstance(e.value, bytes) else str(e.value))
+                    elif t in roles:
+                        sec.append(roles[t])
+                    elif t.startswith("self.name.encode("):
+                        sec.append("<branch-name>")
+                    else:
+                        sec.append(t)
+                k = c.args[1].value
+                out.add((tuple(sec), k.decode() if isinstance(k, bytes) else str(k)))
+        return out
+
+    wr = cfg_accesses(repo.func(GB, "GitBranch.set_parent"), "set")
+    rd = cfg_accesses(repo.func(GB, "GitBranch._get_related_merge_branch"), "get")
+    ctx.require(len(wr) >= 3 and len(rd) >= 2, f"{GB}: config accesses of set_parent / _get_related_merge_branch not found ({sorted(wr)} / {sorted(rd)})")
+    for sec, key in sorted(rd):
+        ctx.check("parent-config-keys", f"{GB}:GitBranch._get_related_merge_branch[{' '.join(sec)}.{key}]", (sec, key) in wr, f"get_parent reads [{' '.join(sec)}] {key}, which set_parent writes", construct=f"read [{' '.join(sec)}] {key}; written {sorted(wr)}", message=f"get_parent reads the git config entry [{' '.join(sec)}] {key} but set_parent writes {sorted(' '.join(s_) + '.' + k for s_, k in wr)}: the parent location (or its branch/ref part) stored by set_parent is not what is read back")
+    fpl = repo.func(GB, "GitBranch._get_parent_location")
+    ctx.check("parent-config-keys", f"{GB}:GitBranch._get_parent_location", any(call_attr(c) == "_get_related_merge_branch" for c in calls_in(fpl)), "get_parent goes through _get_related_merge_branch")
     ctx.sample({"escape_pairs": [(a.decode("latin1"), b.decode("latin1")) for a, b in pairs], "url_keys_written": sorted(wkeys), "url_keys_read": rkeys})
 
 
 MUTANTS = [
+    Mutant("rust reader returns the branch parameter still percent-encoded", RS, ".get(\"branch\")\n        .map(|s| dromedary::urlutils::unescape(s))\n        .transpose()?;", ".get(\"branch\")\n        .map(|s| s.to_string());", expect="url-value-encoding"),
+    Mutant("set_parent writes under the push remote", "breezy/git/branch.py", "        cs = self.repository._git.get_config()\n        remote = self._get_origin(cs)", "        cs = self.repository._git.get_config()\n        remote = self._get_push_origin(cs)", expect="parent-config-keys"),
     Mutant("tag reader uses the branch prefix", RF, "    if ref.startswith(LOCAL_TAG_PREFIX):\n        return ref[len(LOCAL_TAG_PREFIX) :].decode(\"utf-8\")", "    if ref.startswith(LOCAL_TAG_PREFIX):\n        return ref[len(LOCAL_BRANCH_PREFIX) :].decode(\"utf-8\")", expect="R1-prefix-pair"),
     Mutant("HEAD no longer maps back to the empty name", RF, "    if ref == b\"HEAD\":\n        return \"\"\n", "", expect="R1-head"),
     Mutant("the _c escape arm dropped", MP, "            elif file_id[i + 1 : i + 2] == b\"c\":\n                ret.append(b\"\\x0c\"[0])\n", "", expect="R2-inverse-table"),
